@@ -404,9 +404,10 @@ func MergeConfig(a, b *Config) *Config {
 		result.DisableCoordinates = true
 	}
 	if b.Tags != nil {
-		if result.Tags == nil {
-			result.Tags = make(map[string]string)
-		}
+		// Merge into a fresh map, the result must not alias (and modify)
+		// the tags of the first configuration
+		result.Tags = make(map[string]string, len(a.Tags)+len(b.Tags))
+		maps.Copy(result.Tags, a.Tags)
 		maps.Copy(result.Tags, b.Tags)
 	}
 	if b.BindAddr != "" {
